@@ -410,9 +410,16 @@ class Session(AbstractSession):
                 result = ops.get_spans_for_field(field)
         elif len(fields) > 0:
             if isinstance(fields[0], Field):
-                result = ops._get_spans_for_2_fields_by_spans(fields[0].get_spans(), fields[1].get_spans())
+                result = fields[0].get_spans()
+                for f in fields[1:]:
+                    result = ops._get_spans_for_2_fields_by_spans(result, f.get_spans())
             elif isinstance(fields[0], np.ndarray):
-                result = ops._get_spans_for_2_fields(fields[0], fields[1])
+                if len(fields) == 2:
+                    result = ops._get_spans_for_2_fields(fields[0], fields[1])
+                else:
+                    result = ops.get_spans_for_field(fields[0])
+                    for a in fields[1:]:
+                        result = ops._get_spans_for_2_fields_by_spans(result, ops.get_spans_for_field(a))
         else:
             raise ValueError("One of 'field' and 'fields' must be set")
 
